@@ -1290,6 +1290,119 @@ def _gen_wif_seq(rng, T, out, keys, extra):
             out.append(case("wif-seq-%s" % ("keep" if mode == 0 else "caller-edits"), "wif_decode_seq", sq, mode, strict=True))
 
 
+# ---------------------------------------------------------------- numeral tricks of positional (Base58) parsing
+BAD_B58 = [b"0", b"O", b"I", b"l", b" ", b"\n", b"-", b"_", b"+", b"/", b"\x00", b"\xff", b"\t", b".", b"=", b"\xe2\x84\xaa", b"\xc5\xbf"]
+
+
+def _wif_with_digit(rng, v, slen, pos, digit, tries=4000):
+    """a genuine WIF (version v, suffix length slen) whose Base58 digit at index pos+1 is `digit` and whose digit at
+    pos leaves room for the carry; pos counted from the left; None if the search fails"""
+    for _ in range(tries):
+        k = rng.randrange(1, SECP["n"]).to_bytes(32, "big")
+        w = ref_b58check(bytes([v]) + k + bytes(rng.randrange(256) for _ in range(slen)))
+        if pos + 1 < len(w) and B58.index(w[pos + 1]) == digit:
+            return w
+    return None
+
+
+def _carry_edits(w, pos):
+    """two-character edits at (pos, pos+1) that leave the NUMBER unchanged for a decoder that reads a byte outside the
+    alphabet as -1 (find), 58 (len / sentinel), 0 or 57 (clamped)"""
+    d0, d1 = B58.index(w[pos]), B58.index(w[pos + 1])
+    out = []
+    for bad in BAD_B58:
+        if d1 == 57 and d0 < 57:
+            out.append(("minus1", w[:pos] + B58[d0 + 1:d0 + 2] + bad + w[pos + 2:]))      # X z -> (X+1) <bad as -1>
+        if d1 == 0 and d0 > 0:
+            out.append(("is58", w[:pos] + B58[d0 - 1:d0] + bad + w[pos + 2:]))            # Y 1 -> (Y-1) <bad as 58>
+        if d1 == 0:
+            out.append(("is0", w[:pos + 1] + bad + w[pos + 2:]))                          # 1 -> <bad as 0>
+        if d1 == 57:
+            out.append(("is57", w[:pos + 1] + bad + w[pos + 2:]))                         # z -> <bad as 57>
+    return out
+
+
+def _pow58_windows():
+    """(v, suffix length, k): 58^k written in 33+s+4 bytes starts with the WIF version byte v"""
+    hits = []
+    pw = [58 ** k for k in range(0, 230)]
+    for s in range(0, 121):
+        nb = 33 + s + 4
+        for v in sorted(WIF_VERSIONS):
+            lo, hi = v << (8 * (nb - 1)), (v + 1) << (8 * (nb - 1))
+            for k, P in enumerate(pw):
+                if lo <= P < hi:
+                    hits.append((v, s, k))
+    return hits
+
+
+def _gen_numeral(rng, T, out):
+    vs = sorted(WIF_VERSIONS)
+    # (1) carry-cancelling edits at every position of genuine WIFs of every type
+    strs = []
+    for vi, v in enumerate(vs):
+        slen = (0, 1, 1, 0, 34, 23, 34, 34)[vi % 8]
+        wlen = len(ref_b58check(bytes([v]) + b"\x11" * 32 + bytes(slen)))
+        positions = range(0, wlen - 1) if T else sorted({0, 1, wlen - 2, wlen - 3} | {rng.randrange(wlen - 1) for _ in range(3)})
+        for pos in positions:
+            for digit in (57, 0):
+                w = _wif_with_digit(rng, v, slen, pos, digit, tries=1500)
+                if w is None:
+                    continue
+                eds = _carry_edits(w, pos)
+                step = 6 if T else 5
+                eds = [e for j, e in enumerate(eds) if (j + pos) % step == 0] or eds[:2]
+                for kind, e in eds:
+                    strs.append(("wif-dec-carry-edit-" + kind, e))
+    # near-power strings on the decoding side
+    for m in (50, 51, 52, 53, 98):
+        strs += [("wif-dec-pow58-string", b"z" * m), ("wif-dec-pow58-string", b"2" + b"1" * m), ("wif-dec-pow58-string", b"1" + b"z" * m)]
+    for j, (cls, w) in enumerate(strs):
+        out.append(case(cls, "wif_decode_full", w, strict=True))
+        out.append(case(cls, "wif_decode", w, strict=True))
+        if T or j % 3 == 0:
+            out.append(case(cls, "cli_wif_decode", w, j % 4, strict=True))
+        if T or j % 10 == 0:
+            out.append(case(cls, "wif_decode_seq", [w], 0, strict=True))
+    # (2) version || key || suffix || checksum at / just below / just above a power of 58
+    near = []
+    for (v, slen, k) in _pow58_windows():
+        P = 58 ** k
+        nb = 33 + slen + 4
+        ds = [0, 1, 2 ** 32, 2 ** 33, 2 ** 40] + [P // 10 ** m for m in (30, 25, 20, 18, 17, 16, 15, 14, 13, 12, 10, 8, 6)]
+        ds += [rng.randrange(1, P // 10 ** 15) for _ in range(12 if T else 4)]
+        for sign in (-1, 1):
+            for d in ds:
+                payload = ((P + sign * d) >> 32).to_bytes(nb - 4, "big")
+                for pl in (payload, (int.from_bytes(payload, "big") + sign).to_bytes(nb - 4, "big")):
+                    key = pl[1:33]
+                    if pl[0] != v or not 0 < int.from_bytes(key, "big") < SECP["n"]:
+                        continue
+                    N = int.from_bytes(pl + _h4(pl), "big")
+                    near.append(("wif-pow58-%s" % ("below" if N < P else "above"), v, key, pl[33:]))
+    inv = {}
+    for ver, (net, ty) in WIF_VERSIONS.items():
+        inv[ver] = [(net, ty)] + ([("regtest", ty)] if net == "testnet" else [])
+    for j, (cls, v, key, sfx) in enumerate(near):
+        for net, ty in inv[v]:
+            out.append(case(cls, "wif_encode", 0, key, ty, net, sfx, strict=True))
+        w = ref_b58check(bytes([v]) + key + sfx)
+        out.append(case(cls, "wif_decode_full", w, strict=True))
+        if T or j % 6 == 0:
+            net, ty = inv[v][0]
+            out.append(case(cls, "cli_wif_encode", 0, key, ty, net, sfx, "hex", j % 16, False, strict=True))
+            out.append(case(cls, "cli_wif_decode", w, 0, strict=True))
+    # (3) key / suffix at powers of 256
+    for j in list(range(1, 32)) if T else (1, 2, 8, 16, 24, 30, 31):
+        for kint in (256 ** j, 256 ** j - 1, 256 ** j + 1):
+            key = kint.to_bytes(32, "big")
+            for sfx in (b"", b"\0", b"\xff" * 4, b"\0" * 4, b"\x01" + b"\0" * 7):
+                v = vs[(j + len(sfx)) % 16]
+                net, ty = inv[v][-1]
+                out.append(case("wif-key-pow256", "wif_encode", 0, key, ty, net, sfx, strict=True))
+                out.append(case("wif-key-pow256", "wif_decode_full", ref_b58check(bytes([v]) + key + sfx), strict=True))
+
+
 _LAST = {}
 
 
@@ -1305,6 +1418,7 @@ def gen_cases(rng, tier):
     _gen_cli(rng, T, out, keys, pts)
     wl = _gen_lookalike(rng, T, out, keys, pts)
     _gen_wif_seq(rng, T, out, keys, wl)
+    _gen_numeral(rng, T, out)
     _LAST["cases"] = out
     _LAST["keys"] = keys
     _LAST["pts"] = pts
@@ -1566,7 +1680,7 @@ def extra_checks(ctx):
     n = 0
     seen = set()
     budget = 100000 if T else 7000
-    for c in sorted(cases, key=lambda c: (not c["op"].startswith("cli_"), not ("lookalike" in c["cls"] or "seq" in c["cls"] or "encaps" in c["cls"]))):     # the command-line cases first
+    for c in sorted(cases, key=lambda c: (not c["op"].startswith("cli_"), not ("lookalike" in c["cls"] or "seq" in c["cls"] or "encaps" in c["cls"] or "carry" in c["cls"] or "pow" in c["cls"]))):     # the command-line cases first
         if c["op"] not in ORACLE_OPS:
             continue
         if c["op"] == "point" and c["args"][0] == 0 and c["cls"].startswith("lenbad") and not T and n % 3:
